@@ -682,6 +682,84 @@ fn check_limit(limit: usize, cx: &Cx, want_sample: bool, rep: &mut Report) {
             });
             note_panics("factorize", panics, limit, &mut notes, rep);
             rep.count("rich_numbers_with_every_skip_checked", rich);
+            // two factorisations alive at once and consumed in turns (zip; a merge walk over two peekable iterators)
+            let mut pairs = 0u64;
+            let step = (limit / 20_000).max(1);
+            let panics = guarded(2, limit.saturating_sub(40), |n| {
+                if n % step != 0 {
+                    return;
+                }
+                let m = n + 1 + n % 37;
+                let wa: Vec<(i32, i32)> = want_factors(t, n).iter().map(|&(p, e)| (p as i32, e as i32)).collect();
+                let wb: Vec<(i32, i32)> = want_factors(t, m).iter().map(|&(p, e)| (p as i32, e as i32)).collect();
+                pairs += 1;
+                let got: Vec<((i32, i32), (i32, i32))> = lib!(sieve.factorize(n as i32).zip(sieve.factorize(m as i32)).collect());
+                let want: Vec<((i32, i32), (i32, i32))> = wa.iter().cloned().zip(wb.iter().cloned()).collect();
+                // merge walk: the primes of both, in increasing order, each with the larger exponent (the lcm)
+                let mut ia = lib!(sieve.factorize(n as i32)).peekable();
+                let mut ib = lib!(sieve.factorize(m as i32)).peekable();
+                let mut merged: Vec<(i32, i32)> = Vec::new();
+                loop {
+                    match (lib!(ia.peek()).cloned(), lib!(ib.peek()).cloned()) {
+                        (None, None) => break,
+                        (Some(x), None) => {
+                            merged.push(x);
+                            lib!(ia.next());
+                        }
+                        (None, Some(y)) => {
+                            merged.push(y);
+                            lib!(ib.next());
+                        }
+                        (Some(x), Some(y)) => {
+                            if x.0 < y.0 {
+                                merged.push(x);
+                                lib!(ia.next());
+                            } else if y.0 < x.0 {
+                                merged.push(y);
+                                lib!(ib.next());
+                            } else {
+                                merged.push((x.0, x.1.max(y.1)));
+                                lib!(ia.next());
+                                lib!(ib.next());
+                            }
+                        }
+                    }
+                    if merged.len() > 64 {
+                        break;
+                    }
+                }
+                let mut want_merged: Vec<(i32, i32)> = Vec::new();
+                {
+                    let (mut i, mut j) = (0, 0);
+                    while i < wa.len() || j < wb.len() {
+                        if j == wb.len() || (i < wa.len() && wa[i].0 < wb[j].0) {
+                            want_merged.push(wa[i]);
+                            i += 1;
+                        } else if i == wa.len() || wb[j].0 < wa[i].0 {
+                            want_merged.push(wb[j]);
+                            j += 1;
+                        } else {
+                            want_merged.push((wa[i].0, wa[i].1.max(wb[j].1)));
+                            i += 1;
+                            j += 1;
+                        }
+                    }
+                }
+                if got != want || merged != want_merged {
+                    notes.note("factorize:interleaved_iterators", n, || {
+                        Json::obj()
+                            .set("what", "two factorisation iterators consumed in turns (zip / merge walk) do not behave like the two lists of prime powers")
+                            .set("n", n)
+                            .set("m", m)
+                            .set("zip", format!("{:?}", got))
+                            .set("merge_walk", format!("{:?}", merged))
+                            .set("want_n", want_factor_json(t, n))
+                            .set("want_m", want_factor_json(t, m))
+                    });
+                }
+            });
+            note_panics("factorize", panics, limit, &mut notes, rep);
+            rep.count("interleaved_factorisation_pairs", pairs);
         }
         // ---- the same table queried in random order (a scan in increasing n never asks for two far-apart numbers in a row)
         if limit >= 1 << 20 && !min_prime_bad {
@@ -1165,7 +1243,9 @@ fn main() {
         };
         // (2^24 + 434 lies just beyond 24 bits: a table that packs the least prime factor into a narrower field than the
         // limit needs shows there; the first primes above 2^24 are 16777259 and 16777289)
-        let larges: Vec<usize> = if thorough { vec![1_000_000, 10_000_000, (1 << 24) + 434, (1 << 25) + 77, (1 << 26) + 31] } else { vec![1_000_000, (1 << 24) + 434, (1 << 25) + 77] };
+        // (odd limits just above 2^24 / 2^25 are not representable in single precision: 2^24 + 1 = 97 * 257 * 673 and
+        // 2^24 + 5 = 3 * 5592407 are composite last entries)
+        let larges: Vec<usize> = if thorough { vec![1_000_000, 10_000_000, (1 << 24) + 1, (1 << 24) + 5, (1 << 24) + 434, (1 << 25) + 77, (1 << 26) + 31] } else { vec![1_000_000, (1 << 24) + 1, (1 << 24) + 434, (1 << 25) + 77] };
         // the checked build is several times slower: it keeps the limits up to 10^6
         let larges: Vec<usize> = if cfg!(debug_assertions) { larges.into_iter().filter(|&l| l <= 1_000_000).collect() } else { larges };
         let mut tmax = 0;
